@@ -134,3 +134,33 @@ Example C03_maps_theorem_applies :
   mem_str nm_paragraph (c_rules cfg) = true
   /\ exists st', block_parse cfg (fun s => s) (fun s => s) ex_src env0 [] = Ok st' /\ 5 < len (b_tokens st').
 Proof. cbv zeta. split; [vm_compute; reflexivity|]. eexists. split; vm_compute; reflexivity. Qed.
+
+(* ---- sibling order ----------------------------------------------------------------------------- *)
+From MD Require Import Lemmas.MapOrder.
+
+(* [oseg lo hi tokens]: the tokens split into segments with line ranges [a, b), lo <= a < b, each
+   range starting at or after the end of the one before it, every map of a segment inside its range,
+   the last range ending at or before hi.  One segment is what one successful rule call appended:
+   a block together with everything nested in it. *)
+
+(* the whole document: no top-level block starts before the end of the block before it *)
+Theorem C03_block_parse_ordered :
+  forall cfg rf cf, silent_terms cfg -> mem_str nm_paragraph (c_rules cfg) = true ->
+  forall src env toks st', block_parse cfg rf cf src env toks = Ok st' ->
+  exists seg, b_tokens st' = toks ++ seg /\ oseg 0 (b_line st') seg.
+Proof. exact block_parse_ordered. Qed.
+Print Assumptions C03_block_parse_ordered.
+
+(* the same inside every block quote and list item: what the nested block loop appends, at any
+   depth and from any state satisfying the table invariant, is ordered *)
+Theorem C03_nested_tokenize_ordered :
+  forall cfg rf cf, silent_terms cfg -> mem_str nm_paragraph (c_rules cfg) = true ->
+  forall d st a b st', tokenize cfg rf cf d st a b = Ok st' -> 0 <= a -> a < b -> b <= b_lineMax st -> TI st ->
+  exists seg, b_tokens st' = b_tokens st ++ seg /\ oseg a (b_line st') seg.
+Proof. exact tokenize_ordered. Qed.
+Print Assumptions C03_nested_tokenize_ordered.
+
+(* ordered segments are in range as a whole (so this refines C03_block_parse_maps) *)
+Theorem C03_ordered_in_range : forall lo hi s, oseg lo hi s -> Forall (map_in lo hi) s.
+Proof. exact oseg_in. Qed.
+Print Assumptions C03_ordered_in_range.
